@@ -137,13 +137,14 @@ def _check_parity(case, distinct):
     swn = bool(case.get("swn"))
     learner = ExactTableW if swn else (ExactTableNested if case.get("nested") else ExactTable)
     prior = case.get("prior_limit")
-    gs = GridSearch(learner(tie=case.get("tie", 0)), R.build_moment(case), constraint_weight=cw,
+    cw0 = (1.0 - cw if abs(cw - 0.5) > 0.1 else 0.0) if prior else cw
+    gs = GridSearch(learner(tie=case.get("tie", 0)), R.build_moment(case), constraint_weight=cw0,
                     grid_size=grid_size, grid_limit=prior if prior else grid_limit, **({"sample_weight_name": "w"} if swn else {}))
     if prior:
-        # the same estimator object was used before with another grid_limit (a sweep over grid_limit):
+        # the same estimator object was constructed and used with another grid_limit and another constraint_weight (a sweep):
         # everything below is demanded of the refit
         gs.fit(X, y, sensitive_features=sf)
-        gs.set_params(grid_limit=grid_limit)
+        gs.set_params(grid_limit=grid_limit, constraint_weight=cw)
     gs.fit(X, y, sensitive_features=sf)
 
     P = R.Problem(case)
